@@ -1,0 +1,210 @@
+//go:build verif
+
+package smtp
+
+// Verification hooks, compiled only with the "verif" build tag. They let an
+// external model-based conformance harness observe the linearization points of
+// the server (one event per specification action, with a projection of the
+// connection state) and hold two windows open that a backend cannot reach
+// (gates). Nothing here changes behaviour unless a tracer or gate is installed.
+
+import (
+	"bufio"
+	"crypto/tls"
+	"encoding/json"
+	"fmt"
+	"io"
+	"net/textproto"
+	"os"
+	"sync"
+)
+
+// VerifState is the projection of a Conn onto the abstract state of the
+// specification.
+type VerifState struct {
+	Helo       string `json:"helo"`
+	Session    bool   `json:"session"`
+	From       bool   `json:"from"`
+	Rcpts      int    `json:"rcpts"`
+	Bdat       bool   `json:"bdat"`
+	Binarymime bool   `json:"binarymime"`
+	DidAuth    bool   `json:"didAuth"`
+	ErrCount   int    `json:"errCount"`
+	Bytes      int64  `json:"bytes"`
+	TLS        bool   `json:"tls"`
+	LineLimit  int    `json:"lineLimit"`
+	CurLine    int    `json:"curLine"`
+}
+
+// VerifTracer, when non-nil, receives every hook event. st is nil for events
+// emitted from goroutines other than the connection's command loop.
+var VerifTracer func(c *Conn, ev string, st *VerifState, args []interface{})
+
+// VerifGate, when non-nil, is called at the gate sites and may block.
+var VerifGate func(c *Conn, name string)
+
+// VerifConnState projects c. It must only be called from the goroutine that
+// runs c's command loop (or while that goroutine is known to be parked).
+func VerifConnState(c *Conn) VerifState {
+	c.locker.Lock()
+	sess := c.session != nil
+	bdat := c.bdatPipe != nil
+	c.locker.Unlock()
+	_, isTLS := c.conn.(*tls.Conn)
+	return VerifState{
+		Helo:       c.helo,
+		Session:    sess,
+		From:       c.fromReceived,
+		Rcpts:      len(c.recipients),
+		Bdat:       bdat,
+		Binarymime: c.binarymime,
+		DidAuth:    c.didAuth,
+		ErrCount:   c.errCount,
+		Bytes:      c.bytesReceived,
+		TLS:        isTLS,
+		LineLimit:  c.lineLimitReader.LineLimit,
+		CurLine:    c.lineLimitReader.curLineLength,
+	}
+}
+
+func verifEvent(c *Conn, ev string, args ...interface{}) {
+	t := VerifTracer
+	if t == nil {
+		return
+	}
+	st := VerifConnState(c)
+	t(c, ev, &st, args)
+}
+
+// verifEventLocked is verifEvent for sites that already hold c.locker.
+func verifEventAsync(c *Conn, ev string, args ...interface{}) {
+	t := VerifTracer
+	if t == nil {
+		return
+	}
+	t(c, ev, nil, args)
+}
+
+func verifGate(c *Conn, name string) {
+	g := VerifGate
+	if g == nil {
+		return
+	}
+	g(c, name)
+}
+
+// Accessors for unexported pieces that the harness drives directly.
+
+// VerifDataReader exposes the DATA dot-unstuffing reader over an arbitrary
+// buffered source. limit <= 0 means unlimited.
+type VerifDataReader struct{ r *dataReader }
+
+func VerifNewDataReader(src *bufio.Reader, limit int64) *VerifDataReader {
+	dr := &dataReader{r: src}
+	if limit > 0 {
+		dr.limited = true
+		dr.n = limit
+	}
+	return &VerifDataReader{dr}
+}
+
+func (v *VerifDataReader) Read(b []byte) (int, error) { return v.r.Read(b) }
+func (v *VerifDataReader) State() int                 { return v.r.state }
+func (v *VerifDataReader) Unlimit()                   { v.r.limited = false }
+
+// VerifNewLineLimitReader exposes the raw-read line limiter.
+func VerifNewLineLimitReader(r io.Reader, limit int) (io.Reader, func(int), func() int) {
+	l := &lineLimitReader{R: r, LineLimit: limit}
+	return l, func(n int) { l.LineLimit = n }, func() int { return l.curLineLength }
+}
+
+func VerifEncodeXtext(s string) string           { return encodeXtext(s) }
+func VerifDecodeXtext(s string) (string, error)  { return decodeXtext(s) }
+func VerifEncodeUTF8AddrXtext(s string) string   { return encodeUTF8AddrXtext(s) }
+func VerifEncodeUTF8AddrUnitext(s string) string { return encodeUTF8AddrUnitext(s) }
+func VerifDecodeUTF8AddrXtext(s string) (string, error) {
+	return decodeUTF8AddrXtext(s)
+}
+func VerifDecodeTypedAddress(s string) (DSNAddressType, string, error) {
+	return decodeTypedAddress(s)
+}
+func VerifParseCmd(line string) (string, string, error)  { return parseCmd(line) }
+func VerifParseArgs(s string) (map[string]string, error) { return parseArgs(s) }
+func VerifParseHelloArgument(arg string) (string, error) { return parseHelloArgument(arg) }
+func VerifToSMTPErr(code int, msg string) *SMTPError {
+	return toSMTPErr(&textproto.Error{Code: code, Msg: msg})
+}
+func VerifCheckNotifySet(v []DSNNotify) error    { return checkNotifySet(v) }
+func VerifIsPrintableASCII(s string) bool        { return isPrintableASCII(s) }
+func VerifSetStartTLSHook(f func(*tls.Config))   { testHookStartTLS = f }
+func VerifClientRcpts(c *Client) []string        { return append([]string(nil), c.rcpts...) }
+func VerifClientExt(c *Client) map[string]string { return c.ext }
+func VerifServerDone(s *Server) bool {
+	select {
+	case <-s.done:
+		return true
+	default:
+		return false
+	}
+}
+func VerifServerConns(s *Server) int { s.locker.Lock(); defer s.locker.Unlock(); return len(s.conns) }
+
+// VerifParsePath runs the MAIL (reverse=true) or RCPT path parser and returns
+// the mailbox and the unparsed rest.
+func VerifParsePath(s string, reverse bool) (string, string, error) {
+	p := parser{s: s}
+	var mbox string
+	var err error
+	if reverse {
+		mbox, err = p.parseReversePath()
+	} else {
+		mbox, err = p.parsePath()
+	}
+	return mbox, p.s, err
+}
+
+// File tracer for runs of the repository's own tests:
+// VERIF_TRACE_FILE=<path> go test -tags verif ...
+var verifFileMu sync.Mutex
+
+func init() {
+	path := os.Getenv("VERIF_TRACE_FILE")
+	if path == "" {
+		return
+	}
+	f, err := os.OpenFile(path, os.O_CREATE|os.O_WRONLY|os.O_APPEND, 0o644)
+	if err != nil {
+		return
+	}
+	ids := map[*Conn]int{}
+	seqs := map[*Conn]int{}
+	enc := json.NewEncoder(f)
+	VerifTracer = func(c *Conn, ev string, st *VerifState, args []interface{}) {
+		verifFileMu.Lock()
+		defer verifFileMu.Unlock()
+		id, ok := ids[c]
+		if !ok {
+			id = len(ids) + 1
+			ids[c] = id
+		}
+		seqs[c]++
+		sargs := make([]string, len(args))
+		for i, a := range args {
+			sargs[i] = fmt.Sprint(a)
+		}
+		rec := map[string]interface{}{"pid": os.Getpid(), "conn": id, "seq": seqs[c], "ev": ev, "args": sargs}
+		if st != nil {
+			rec["st"] = st
+		}
+		if ev == "open" {
+			s := c.server
+			rec["cfg"] = map[string]interface{}{
+				"lmtp": s.LMTP, "maxRcpt": s.MaxRecipients, "maxBytes": s.MaxMessageBytes,
+				"maxLine": s.MaxLineLength, "insecureAuth": s.AllowInsecureAuth, "tlsAvail": s.TLSConfig != nil,
+				"utf8": s.EnableSMTPUTF8, "requireTLS": s.EnableREQUIRETLS, "binarymime": s.EnableBINARYMIME,
+				"dsn": s.EnableDSN, "rrvs": s.EnableRRVS,
+			}
+		}
+		enc.Encode(rec)
+	}
+}
